@@ -15,7 +15,7 @@ s=open(p).read()
 assert s.count(old)>=1, "pattern not found"
 open(p,'w').write(s.replace(old,new,1))
 PY
-(cd $W && GOFLAGS=-mod=mod go build ./... ) || { echo "mutant does not build"; exit 9; }
+(cd $W && GOCACHE=/tmp/verif-gocache-alt GOFLAGS=-mod=mod go build -trimpath ./... ) || { echo "mutant does not build"; exit 9; }
 for id in "$@"; do
   out=$(cd $ROOT && VERIF_REPO=$W ./check $id ${MUT_TIER:-quick} 2>&1); rc=$?
   echo "== $id exit=$rc"; echo "$out" | grep -E "VIOLATION|signature|INFRA|KNOWN|^OK" | head -${MUT_LINES:-6} | cut -c1-260
